@@ -160,6 +160,9 @@ class Gen:
             lambda: (self.feat("floordiv"), self.macro(lambda: f"(abs({sub()}) // {self.int_lit(1, 9)})"))[1],
             lambda: (self.feat("mod"), self.macro(lambda: f"(abs({sub()}) % {self.int_lit(1, 9)})"))[1],
             lambda: (self.feat("len_literal"), f"len({self.str_lit()})")[1],
+            # arithmetic on truth values is int arithmetic: (a > 3) + (b > 3) counts
+            lambda: (self.feat("bool_sum"), f"({self.e_bool(depth - 1)} + {self.e_bool(depth - 1)})")[1],
+            lambda: (self.feat("bool_sum"), f"(({self.e_bool(depth - 1)} + {self.e_bool(depth - 1)}) * {self.int_lit(2, 5)})")[1],
         ]
         lst = [n for n in self.names("list_int") if self.list_len.get(n, 0) > 0]
         if lst:
